@@ -297,6 +297,17 @@ def c10(ctx):
                                    "input": {"system": NAME, "str": s}, "observed": {"canon": canon, "canon2": re[3]}, "required": canon})
         by_canon.setdefault(canon, []).append(s)
     ctx.count("corr:svm_canon_maven", len(strings))
+    # hypothesis of the round-trip theorem C10_maven_roundtrip_partial on every parsed element list
+    po = ctx.model("svm_maven_printable", [sx([s]) for s in strings])
+    npr = 0
+    for s, l in zip(strings, po):
+        v = parse_sx(l)
+        if v and v[0] == b"err":
+            continue
+        npr += 1
+        if v != [1]:
+            ctx.divergence("svm_maven_printable", {"str": s, "what": "parsed element list outside the hypothesis of the round-trip theorem"}, "printable", l)
+    ctx.count("maven:c10:printable-lists", npr)
     # canon-equal implies compare-equal
     groups = [v for v in by_canon.values() if len(v) > 1]
     ctx.count("maven:canon-groups", len(groups))
